@@ -242,7 +242,10 @@ impl Lexer {
                         }
                     }
 
-                    self.after_open = mode == LexingMode::Open;
+                    // (a blank after the bracket changes nothing: `count( * )`)
+                    if c != ' ' {
+                        self.after_open = mode == LexingMode::Open;
+                    }
                 }
             }
         }
